@@ -385,5 +385,7 @@ def run(ctx, rep):
     K.share(ctx, rep, "c02", lambda o: o.rule == "R02.7" or o.rule == "R02.8", "R01.10", floor=3)
     # a request that was issued is transmitted (a stranded request is a call that never runs)
     K.share(ctx, rep, "c12", lambda o: o.rule in ("R12.1", "R12.2", "R12.3", "R12.5", "R12.7"), "R01.11", floor=6)
+    K.share(ctx, rep, "c16", lambda o: o.rule == "R16.8", "R01.11", floor=1)
     # the caller that sees "ready" reads the outcome of ITS call: the outcome is stored before the flag is published
     K.share(ctx, rep, "c13", lambda o: o.rule == "R13.5", "R01.4", floor=2)
+    K.share(ctx, rep, "c15", lambda o: o.rule == "R15.1" and "holds its connection strongly" in o.key, "R01.4", floor=1)
